@@ -97,14 +97,18 @@ func (f *STFS) Create(name string) (afero.File, error) {
 
 	name = cleanName(name)
 
-	if parent, err := inventory.Stat(
+	// The index must only be accessed while holding the lock; `OpenFile` takes it itself
+	f.ioLock.Lock()
+	parent, err := inventory.Stat(
 		f.metadata,
 
 		filepath.Dir(name),
 		false,
 
 		f.onHeader,
-	); err != nil {
+	)
+	f.ioLock.Unlock()
+	if err != nil {
 		if err == sql.ErrNoRows {
 			return nil, os.ErrNotExist
 		}
@@ -1190,6 +1194,10 @@ func (f *STFS) SymlinkIfPossible(oldname, newname string) error {
 		return os.ErrInvalid
 	}
 
+	// Resolving the names accesses the index, so the lock has to be held already
+	f.ioLock.Lock()
+	defer f.ioLock.Unlock()
+
 	var err error
 	rawOldName := oldname
 	oldname, err = f.resolveCleanName(oldname, true)
@@ -1202,9 +1210,6 @@ func (f *STFS) SymlinkIfPossible(oldname, newname string) error {
 	if err != nil {
 		return err
 	}
-
-	f.ioLock.Lock()
-	defer f.ioLock.Unlock()
 
 	if parent, err := inventory.Stat(
 		f.metadata,
